@@ -83,9 +83,26 @@ def with_op_names(sched, mode):
 # ---------------------------------------------------------------------------------------------------
 # numbers: implementation floats -> small rationals for TLC
 # ---------------------------------------------------------------------------------------------------
-def rat(x, u=1):
-    """A number returned by the implementation (fed with values v*u) as the rational n/d of lowest terms, d <= 2*10^4,
-    that it agrees with to 1e-9 (relative to max(1, |x|)); d < 0 marks 'no such rational'; None -> 0/0."""
+GRID = 10000  # percentiles (p with at most two decimals) and order statistics of integer data are multiples of 1/10^4
+
+
+def grid_tol(S):
+    """Absolute tolerance for percentile-like values of a store: 1e-9 relative to the largest input value (the float error of
+    lower + (higher - lower) * fraction is proportional to the neighbouring values, not to the result), below half a grid step."""
+    big = max([abs(r[4]) for r in S["recs"]] + [S["ap"][3] + S["ap"][2] * S["ap"][4] + S["ap"][6] * S["ap"][7], 1])
+    return min(4e-5, TOL * big)
+
+
+def rat(x, u=1, grid=False):
+    """A number returned by the implementation (fed with values v*u) as a rational n/d in lowest terms for TLC; None -> 0/0;
+    d < 0 marks 'agrees with no admissible rational' (about n/|d|, equal to nothing).
+    grid=True  (percentiles, min, max, sums, medians of integer data): the multiple of 1/10^4 it agrees with; u may be
+               (scale, absolute tolerance), see grid_tol; default tolerance 1e-9 * max(1, |x|).
+    grid=False (means, error rates): the closest rational of denominator <= 2*10^4, which it must agree with to 1e-9 relative
+               to max(1, |x|) (statistics.mean and / are correctly rounded, so the closest one is the exact one)."""
+    gtol = None
+    if isinstance(u, tuple):
+        u, gtol = u
     if x is None:
         return dict(NONE)
     if isinstance(x, bool) or not isinstance(x, (int, float)) or (isinstance(x, float) and not math.isfinite(x)):
@@ -93,10 +110,15 @@ def rat(x, u=1):
     y = Fraction(x) / Fraction(u)
     if abs(y) > 100000:  # keeps numerators below 2^31
         return {"n": 100000 if y > 0 else -100000, "d": -1}
-    f = y.limit_denominator(MAXDEN)
-    if abs(y - f) <= Fraction(TOL) * max(1, abs(f)):
+    if grid:
+        f = Fraction(int(round(y * GRID)), GRID)
+        tol = Fraction(gtol) if gtol is not None else min(Fraction(4, 100000), Fraction(TOL) * max(1, abs(y)))
+    else:
+        f = y.limit_denominator(MAXDEN)
+        tol = Fraction(TOL) * max(1, abs(f))
+    if abs(y - f) <= tol:
         return {"n": f.numerator, "d": f.denominator}
-    return {"n": int(round(y * MAXDEN)), "d": -MAXDEN}
+    return {"n": int(round(y * GRID)), "d": -GRID}
 
 
 def real(r):
@@ -267,20 +289,20 @@ class Impl:
                 {
                     "p": True,
                     "tp": {
-                        "min": rat(tp.get("min"), u),
+                        "min": rat(tp.get("min"), u, grid=True),
                         "mean": rat(tp.get("mean"), u),
-                        "med": rat(tp.get("median"), u),
-                        "max": rat(tp.get("max"), u),
+                        "med": rat(tp.get("median"), u, grid=True),
+                        "max": rat(tp.get("max"), u, grid=True),
                         "unit": _unit(tp.get("unit")),
                     },
                     "lat": _table(r.get("latency"), u),
                     "svc": _table(r.get("service_time"), u),
                     "proc": _table(r.get("processing_time"), u),
                     "er": rat(r.get("error_rate")),
-                    "dur": rat(r.get("duration"), 1000),
+                    "dur": rat(r.get("duration"), 1000, grid=True),
                 }
             )
-        g = {k: rat(getattr(gs, attr)) for k, attr in GATTR.items()}
+        g = {k: rat(getattr(gs, attr), grid=True) for k, attr in GATTR.items()}
         return {"ops": ops, "g": g}
 
     def direct(self, store, sched, u, ot):
@@ -291,10 +313,10 @@ class Impl:
             for m in TASK_METRICS:
                 pct = store.get_percentiles(REAL_NAME[m], task=name, operation_type=ot[name], sample_type=normal, percentiles=list(PLIST))
                 st = store.get_stats(REAL_NAME[m], task=name, operation_type=ot[name], sample_type=normal)
-                pairs = sorted((_key_p100(k), rat(v, u)) for k, v in (pct or {}).items())
+                pairs = sorted((_key_p100(k), rat(v, u, grid=True)) for k, v in (pct or {}).items())
                 d = {"k": [p for p, _ in pairs], "v": [v for _, v in pairs]}
                 if st:
-                    d.update({"n": int(st["count"]), "min": rat(st["min"], u), "max": rat(st["max"], u), "mean": rat(st["avg"], u)})
+                    d.update({"n": int(st["count"]), "min": rat(st["min"], u, grid=True), "max": rat(st["max"], u, grid=True), "mean": rat(st["avg"], u)})
                 else:
                     d.update({"n": 0, "min": dict(NONE), "max": dict(NONE), "mean": dict(NONE)})
                 row.append(d)
@@ -330,11 +352,12 @@ class Impl:
 
     def run_store(self, item, rnd):
         """Executes one store item on the real code and fills in the observation."""
-        S, sched, u = item["S"], item["sched"], item["u"]
+        S, sched = item["S"], item["sched"]
+        u = (item["u"], grid_tol(S))  # only for the conversion of results; the store is fed with v * item["u"]
         ot = item.setdefault("ot", op_types(sched))
         opn = {e[0]: e[2] for e in sched}
         t, ch = self.track_for(sched, ot)
-        store = self.load_store(S, u, ot, rnd, opn=opn)
+        store = self.load_store(S, item["u"], ot, rnd, opn=opn)
         if item.get("tele") is not None:
             self.add_telemetry(store, item["tele"])
         race = self.new_race(t, ch)
@@ -352,7 +375,7 @@ class Impl:
         race.add_results(res)
         item["RL"], item["RS"], item["diff"] = self.persist_and_reload(race, res, sched, u)
         if any(not r[3] for r in S["recs"]):
-            store_n = self.load_store(S, u, ot, rnd, normal_only=True, opn=opn)
+            store_n = self.load_store(S, item["u"], ot, rnd, normal_only=True, opn=opn)
             res_n = self.metrics.calculate_results(store_n, self.new_race(t, ch))
             item["RN"] = self.project(res_n, sched, u, "entries")
             item["DN"] = self.direct(store_n, sched, u, ot)
@@ -416,7 +439,7 @@ def _table(tab, u):
     """{'50_0': x, '100_0': y, 'mean': m, 'unit': 'ms'} -> keys (1/100 percent, ascending) and values; {} -> empty table."""
     if not tab:
         return _empty_table()
-    pairs = sorted((_key_p100(k), rat(v, u)) for k, v in tab.items() if k not in ("mean", "unit") and _key_p100(k) >= 0)
+    pairs = sorted((_key_p100(k), rat(v, u, grid=True)) for k, v in tab.items() if k not in ("mean", "unit") and _key_p100(k) >= 0)
     extra = sum(1 for k in tab if k not in ("mean", "unit") and _key_p100(k) < 0)  # additional entries are no percentiles (L2 only)
     return {"k": [p for p, _ in pairs], "v": [v for _, v in pairs], "mean": rat(tab.get("mean"), u), "unit": _unit(tab.get("unit")), "x": extra}
 
@@ -583,8 +606,10 @@ def run(ctx, out):
         "stores with up to 3 tasks, values up to 10^4 and bags up to 260 / progressions up to 12000 records (C2S only)."
     )
     out.assumptions = [
-        "a float returned by the implementation is identified with the rational of denominator <= 2*10^4 it agrees with to 1e-9 "
-        "(relative to max(1,|x|)); all exact results of the inputs used have such a denominator; a float that agrees with none is 'equal to nothing'",
+        "floats returned by the implementation are identified with rationals: a percentile / min / max / sum with the multiple of "
+        "1/10^4 it agrees with to 1e-9 relative to the largest input value of the store (exact percentiles of integer data lie on that "
+        "grid; the float error of the interpolation scales with the neighbouring values), a mean / error rate with the closest rational "
+        "of denominator <= 2*10^4, which it must agree with to 1e-9 relative to max(1,|x|); a float that agrees with none is 'equal to nothing'",
         "inputs are integers v fed as v*u for a unit scale u in {1, 1.0, 0.5, 0.001, 1000.0, 0.1}; results are divided by u again "
         "(percentiles, mean, min, max are homogeneous); arbitrary 64-bit floats as inputs are not covered",
         "'results' of C08 = the statistics (throughput summary, percentile tables, means, error rate); the unit string and the "
